@@ -138,4 +138,17 @@ def customAttrGroup (i : NodeInfo) : Obj := retagCustom (nodeGroup i)
 def customBody (own : List (String × Obj)) (attrs : List NodeInfo) : List (String × Obj) :=
   own ++ attrs.map (fun i => (i.name, customAttrGroup i))
 
+/-- `Custom._get_emd_attr_data(group)` looks at the groups whose tag starts with `custom_` … -/
+def isCustomTagged (o : Obj) : Bool :=
+  match o with
+  | .group a _ =>
+    (match alookup "emd_group_type" a with
+     | some (.str t) => t.toList.take 7 == ['c', 'u', 's', 't', 'o', 'm', '_']
+     | _ => false)
+  | .dataset _ _ => false
+
+/-- … and returns each, read by its own class, under the group's name: the keys of the dictionary the reader hook gets -/
+def attrDataKeys (body : List (String × Obj)) : List String :=
+  (body.filter (fun kv => isCustomTagged kv.2)).map (·.1)
+
 end EmdModel
